@@ -7,36 +7,53 @@ here = os.path.dirname(os.path.abspath(__file__))
 SS = {1: 3, 2: 4, 3: 6}
 TS = {1: 3, 2: 5, 3: 9}
 
-# name, kind of p, kind of q, needs invertible q, nout kind, title, group (file compiled side by side)
+# name, kind of p, blocks of q ('s','t' tensors, 'S' ns x ns, 'M' ns x nt, 'T' nt x nt, 'A' anchor = copy of the point), what must be
+# invertible ("" | "q" | "p"), nout kind, title, group (file compiled side by side), tier of the N=3 lemma ("quick" | "thorough")
 HELPERS = [
-    ("stensor_det", "s", "-", False, "1", "computeDeterminantDerivative(stensor) is the gradient of det", ""),
-    ("stensor_det2", "s", "-", False, "s", "computeDeterminantSecondDerivative(stensor) is the Jacobian of computeDeterminantDerivative", ""),
-    ("stensor_devdet", "s", "-", False, "1", "computeDeviatorDeterminantDerivative is the gradient of det(deviator(s))", ""),
-    ("stensor_devdet2", "s", "-", False, "s", "computeDeviatorDeterminantSecondDerivative is the Jacobian of computeDeviatorDeterminantDerivative", ""),
-    ("J3", "s", "-", False, "1", "tfel::material::computeJ3Derivative is the gradient of J3 = det(deviator(s))", ""),
-    ("J3_2", "s", "-", False, "s", "tfel::material::computeJ3SecondDerivative is the Jacobian of computeJ3Derivative", ""),
-    ("dsquare", "s", "-", False, "s", "st2tost2::dsquare(s) is the Jacobian of square(s)", ""),
-    ("stpd", "s", "s", False, "s", "st2tost2::stpd(q) is the Jacobian of p |-> p.q + q.p", ""),
-    ("daba_da", "s", "s", False, "s", "symmetric_product_derivative_daba_da(a,b) is the Jacobian of a |-> a.b.a", ""),
-    ("daba_db", "s", "s", False, "s", "symmetric_product_derivative_daba_db(a) is the Jacobian of b |-> a.b.a", ""),
-    ("st2tot2_tpld", "s", "s", False, "t", "st2tot2::tpld(q) is the Jacobian of p |-> p*q (symmetric p, q; unsymmetric product)", ""),
-    ("st2tot2_tprd", "s", "s", False, "t", "st2tot2::tprd(q) is the Jacobian of p |-> q*p", ""),
-    ("tensor_det", "t", "-", False, "1", "computeDeterminantDerivative(tensor) is the gradient of det(F)", "b"),
-    ("tensor_det2", "t", "-", False, "t", "computeDeterminantSecondDerivative(tensor) is the Jacobian of computeDeterminantDerivative(tensor)", "f"),
-    ("dCdF", "t", "-", False, "s", "t2tost2::dCdF(F) is the Jacobian of the right Cauchy-Green tensor F^T.F", "b"),
-    ("dBdF", "t", "-", False, "s", "t2tost2::dBdF(F) is the Jacobian of the left Cauchy-Green tensor F.F^T", "b"),
-    ("tpld", "t", "t", False, "t", "t2tot2::tpld(q) is the Jacobian of p |-> p*q", "b"),
-    ("tprd", "t", "t", False, "t", "t2tot2::tprd(q) is the Jacobian of p |-> q*p", "b"),
-    ("transpose_derivative", "t", "-", False, "t", "t2tot2::transpose_derivative() is the Jacobian of transpose", "b"),
-    ("velocity_gradient", "t", "t", True, "t", "computeVelocityGradientDerivative(F) is the Jacobian of dF |-> dF.F^-1 (det F <> 0)", "c"),
-    ("rate_of_deformation", "t", "t", True, "s", "computeRateOfDeformationDerivative(F) is the Jacobian of dF |-> sym(dF.F^-1) (det F <> 0)", "d"),
-    ("spin_rate", "t", "t", True, "t", "computeSpinRateDerivative(F) is the Jacobian of dF |-> skew(dF.F^-1) (det F <> 0)", "e"),
+    ("stensor_det", "s", "", "", "1", "computeDeterminantDerivative(stensor) is the gradient of det", ""),
+    ("stensor_det2", "s", "", "", "s", "computeDeterminantSecondDerivative(stensor) is the Jacobian of computeDeterminantDerivative", ""),
+    ("stensor_devdet", "s", "", "", "1", "computeDeviatorDeterminantDerivative is the gradient of det(deviator(s))", ""),
+    ("stensor_devdet2", "s", "", "", "s", "computeDeviatorDeterminantSecondDerivative is the Jacobian of computeDeviatorDeterminantDerivative", ""),
+    ("J3", "s", "", "", "1", "tfel::material::computeJ3Derivative is the gradient of J3 = det(deviator(s))", ""),
+    ("J3_2", "s", "", "", "s", "tfel::material::computeJ3SecondDerivative is the Jacobian of computeJ3Derivative", ""),
+    ("dsquare", "s", "", "", "s", "st2tost2::dsquare(s) is the Jacobian of square(s)", ""),
+    ("stpd", "s", "s", "", "s", "st2tost2::stpd(q) is the Jacobian of p |-> p.q + q.p", ""),
+    ("daba_da", "s", "s", "", "s", "symmetric_product_derivative_daba_da(a,b) is the Jacobian of a |-> a.b.a", ""),
+    ("daba_db", "s", "s", "", "s", "symmetric_product_derivative_daba_db(a) is the Jacobian of b |-> a.b.a", ""),
+    ("st2tot2_tpld", "s", "s", "", "t", "st2tot2::tpld(q) is the Jacobian of p |-> p*q (symmetric p, q; unsymmetric product)", ""),
+    ("st2tot2_tprd", "s", "s", "", "t", "st2tot2::tprd(q) is the Jacobian of p |-> q*p", ""),
+    ("tensor_det", "t", "", "", "1", "computeDeterminantDerivative(tensor) is the gradient of det(F)", "b"),
+    ("tensor_det2", "t", "", "", "t", "computeDeterminantSecondDerivative(tensor) is the Jacobian of computeDeterminantDerivative(tensor)", "f"),
+    ("dCdF", "t", "", "", "s", "t2tost2::dCdF(F) is the Jacobian of the right Cauchy-Green tensor F^T.F", "b"),
+    ("dBdF", "t", "", "", "s", "t2tost2::dBdF(F) is the Jacobian of the left Cauchy-Green tensor F.F^T", "b"),
+    ("tpld", "t", "t", "", "t", "t2tot2::tpld(q) is the Jacobian of p |-> p*q", "b"),
+    ("tprd", "t", "t", "", "t", "t2tot2::tprd(q) is the Jacobian of p |-> q*p", "b"),
+    ("transpose_derivative", "t", "", "", "t", "t2tot2::transpose_derivative() is the Jacobian of transpose", "b"),
+    ("velocity_gradient", "t", "t", "q", "t", "computeVelocityGradientDerivative(F) is the Jacobian of dF |-> dF.F^-1 (det F <> 0)", "c"),
+    ("rate_of_deformation", "t", "t", "q", "s", "computeRateOfDeformationDerivative(F) is the Jacobian of dF |-> sym(dF.F^-1) (det F <> 0)", "d"),
+    ("spin_rate", "t", "t", "q", "t", "computeSpinRateDerivative(F) is the Jacobian of dF |-> skew(dF.F^-1) (det F <> 0)", "e"),
+    # second round.  Chain-rule overloads and conversions take the derivative X of an inner function and its value: the inner
+    # function is the affine v(p) = v0 + X.p (same first order behaviour as any differentiable inner function)
+    ("dsquare_chain", "s", "sS", "", "s", "st2tost2::dsquare(s(x), C) is the Jacobian of x |-> square(s(x)), s(x) = s0 + C.x", "h"),
+    ("tpld_chain", "t", "ttT", "", "t", "t2tot2::tpld(W, C) is the Jacobian of x |-> V(x)*W, V(x) = V0 + C.x", "h"),
+    ("tprd_chain", "t", "ttT", "", "t", "t2tot2::tprd(W, C) is the Jacobian of x |-> W*V(x), V(x) = V0 + C.x", "h"),
+    ("st2tot2_tpld_chain", "s", "ssS", "", "t", "st2tot2::tpld(w, C) is the Jacobian of x |-> v(x)*w, v(x) = v0 + C.x (symmetric tensors)", "g"),
+    ("st2tot2_tprd_chain", "s", "ssS", "", "t", "st2tot2::tprd(w, C) is the Jacobian of x |-> w*v(x), v(x) = v0 + C.x (symmetric tensors)", "h"),
+    ("push_forward_dS", "s", "t", "", "s", "computePushForwardDerivative(st2tost2&, F) is the Jacobian of S |-> push_forward(S, F) = F.S.F^T", "i"),
+    ("push_forward_dF", "t", "s", "", "s", "computePushForwardDerivativeWithRespectToDeformationGradient(S, F) is the Jacobian of F |-> F.S.F^T", "i"),
+    ("push_forward_chain", "t", "sM", "", "s", "computePushForwardDerivative(dS/dF, S(F), F) is the Jacobian of F |-> F.S(F).F^T, S(F) = S0 + X.F", "i"),
+    ("kirchhoff_from_cauchy", "t", "sM", "", "s", "computeKirchhoffStressDerivativeFromCauchyStressDerivative(ds, s(F), F) is the Jacobian of F |-> det(F) s(F), s(F) = s0 + X.F", "j"),
+    ("cauchy_from_kirchhoff", "t", "sM", "p", "s", "computeCauchyStressDerivativeFromKirchhoffStressDerivative(dtau, tau(F)/det F, F) is the Jacobian of F |-> tau(F)/det(F), tau(F) = t0 + X.F (det F <> 0)", "j"),
+    ("pk1_from_cauchy", "t", "sM", "", "t", "convertCauchyStressDerivativeToFirstPiolaKirchoffStressDerivative(ds, F, s(F)) is the Jacobian of F |-> convertCauchyStressToFirstPiolaKirchhoffStress(s(F), F), s(F) = s0 + X.F", "k"),
+    ("pk1_from_pk2", "t", "sS", "p", "t", "convertSecondPiolaKirchhoffStressDerivativeToFirstPiolaKirchoffStressDerivative(dS/dE, F, sigma(F)) is the Jacobian of F |-> P(F) = F.S(F), S(F) = S0 + X.E_GL(F), through the conversions of /repo (det F <> 0)", "l"),
+    ("tau_from_pk1", "t", "sTA", "p", "s", "convertFirstPiolaKirchoffStressDerivativeToKirchhoffStressDerivative(dP, F0, s0) is the Jacobian at F0 of F |-> det(F) convertFirstPiolaKirchhoffStressToCauchyStress(P(F), F), P(F) = P(s0, F0) + X.(F - F0) (det F0 <> 0)", "m"),
 ]
-GROUPS = ["", "b", "c", "d", "e", "f"]
+GROUPS = ["", "b", "c", "d", "e", "f", "g", "h", "i", "j", "k", "l", "m"]
 
 
-def size(k, N):
-    return {"s": SS[N], "t": TS[N], "-": 0, "1": 1}[k]
+def size(k, N, pk="-"):
+    ns, nt = SS[N], TS[N]
+    return {"s": ns, "t": nt, "-": 0, "1": 1, "S": ns * ns, "M": ns * nt, "T": nt * nt, "A": ns if pk == "s" else nt}[k]
 
 
 HDR = "From Coq Require Import Reals List.\nFrom Coquelicot Require Import Coquelicot.\nFrom VLib Require Import RealExtra.\n"
@@ -56,13 +73,25 @@ def main():
     for (h, pk, qk, inv, ok, title, g) in HELPERS:
         st.append("\n(* %s *)" % title)
         for N in (1, 2, 3):
-            np_, nq, no = size(pk, N), size(qk, N), size(ok, N)
+            np_, no = size(pk, N), size(ok, N)
             p = ["p%d" % i for i in range(np_)]
-            q = ["q%d" % i for i in range(nq)]
+            # q as written in the statement: fresh variables, except the anchor block which is the point itself
+            q, qv = [], []
+            for blk in qk:
+                if blk == "A":
+                    q += p
+                else:
+                    new = ["q%d" % (len(qv) + i) for i in range(size(blk, N, pk))]
+                    q += new
+                    qv += new
             nm = "%s%d" % (h, N)
-            hyp = ("nthR (f_tensor_det%d %s) 0 <> 0 ->\n    " % (N, " ".join(q))) if inv else ""
+            hyp = ""
+            if inv == "q":
+                hyp = "nthR (f_tensor_det%d %s) 0 <> 0 ->\n    " % (N, " ".join(q))
+            elif inv == "p":
+                hyp = "nthR (f_tensor_det%d %s) 0 <> 0 ->\n    " % (N, " ".join(p))
             st.append("Definition %s_stmt%d : Prop :=\n  forall %s : R,\n    %sis_jacobian %d %d (fun p => f_%s_l p [%s]) (fun p => D_%s_l p [%s]) [%s]." % (
-                h, N, " ".join(p + q), hyp, np_, no, nm, "; ".join(q), nm, "; ".join(q), "; ".join(p)))
+                h, N, " ".join(p + qv), hyp, np_, no, nm, "; ".join(q), nm, "; ".join(q), "; ".join(p)))
             unfh = "ltac:(unfold f_tensor_det%d)" % N if inv else "ltac:(idtac)"
             pr[g].append("Lemma %s_ok%d : %s_stmt%d.\nProof. unfold %s_stmt%d. jac ltac:(unfold f_%s_l, f_%s, D_%s_l, D_%s) %s. Qed." % (
                 h, N, h, N, h, N, nm, nm, nm, nm, unfh))
